@@ -26,3 +26,23 @@ package settings
 //@   loop 0 invariant[map_untouched] mapsame(s.patterns)
 //@   csensures[most_specific_match_wins] forall k in keys(s.patterns): matches(swampName, s.patterns[k]) ==> matches(swampName, r) && specificity(icall("GetPattern", s.patterns[k])) <= specificity(icall("GetPattern", r))
 //@   csensures[default_only_without_match] calls("New") > old(calls("New")) ==> forall k in keys(s.patterns): !matches(swampName, s.patterns[k])
+
+// Persisting the pattern file is not verified here (opaque): JSON + file write.
+//@ func (*settings).SaveSettingsToFilesystem(s) (err)
+//@   opaque
+
+// RegisterPattern (property C21): after a registration (unless it is recognised as an unchanged
+// re-registration of a persistent pattern) the runtime table has the pattern, and the entry that is
+// persisted for the next start carries exactly the requested settings -- so the same settings apply
+// again after a restart, whatever was registered under that pattern before.
+//@ func (*settings).RegisterPattern(s, pattern, inMemorySwamp, closeAfterIdleSec, filesystemSettings)
+//@   property C21
+//@   nopanic
+//@   requires[args] pattern != nil && s.patterns != nil && s.model != nil && s.model.Patterns != nil
+//@   requires[registered] forall k in keys(s.patterns): s.patterns[k] != nil
+//@   requires[persistent_needs_filesystem_settings] !inMemorySwamp ==> filesystemSettings != nil
+//@   modifies *
+//@   ensures[persisted_entry_matches_request] calls("settings.SaveSettingsToFilesystem") > old(calls("settings.SaveSettingsToFilesystem")) ==> has(s.model.Patterns, icall("Get", pattern)) && s.model.Patterns[icall("Get", pattern)] != nil && s.model.Patterns[icall("Get", pattern)].InMemory == inMemorySwamp && s.model.Patterns[icall("Get", pattern)].CloseAfterIdleSec == closeAfterIdleSec && s.model.Patterns[icall("Get", pattern)].NameCanonicalForm == icall("Get", pattern)
+//@   ensures[persisted_filesystem_settings] calls("settings.SaveSettingsToFilesystem") > old(calls("settings.SaveSettingsToFilesystem")) && !inMemorySwamp && filesystemSettings != nil ==> s.model.Patterns[icall("Get", pattern)].WriteIntervalSec == old(filesystemSettings.WriteIntervalSec) && s.model.Patterns[icall("Get", pattern)].MaxFileSizeByte == old(filesystemSettings.MaxFileSizeByte)
+//@   ensures[runtime_table_has_pattern] calls("settings.SaveSettingsToFilesystem") > old(calls("settings.SaveSettingsToFilesystem")) ==> has(s.patterns, icall("Get", pattern))
+//@   ensures[saved_after_every_change] calls("New") > old(calls("New")) ==> calls("settings.SaveSettingsToFilesystem") == old(calls("settings.SaveSettingsToFilesystem")) + 1
